@@ -310,6 +310,17 @@ def decode_cex(spec, w, ths, M, inv, m, what, dead):
                 cex["schedule"] = [s["thread"] for s in cex["steps"] if s["k"] < k]
                 cex["steps"] = [s for s in cex["steps"] if s["k"] <= k]
                 break
+    # role marker: a thread marked a node as removed (CAS ok, size field 0 afterwards) and its very next step, the unlink CAS, failed
+    am = None
+    by_thread = {}
+    for s_ in cex["steps"]:
+        by_thread.setdefault(s_["thread"], []).append(s_)
+    for ti_, ss in by_thread.items():
+        for a_, b_ in zip(ss, ss[1:]):
+            if a_.get("kind") == "compare_exchange" and a_.get("ok") and (a_.get("word_after", 1 << 40) >> 32) == 0 and \
+               b_.get("kind") == "compare_exchange" and b_.get("ok") is False:
+                am = {"thread": ti_, "marked_node": a_.get("addr"), "fn": a_["desc"].split()[2] if len(a_["desc"].split()) > 2 else "?"}
+    cex["abandoned_mark"] = am
     if what in ("hb", "teardown"):
         cex["witness_byte"] = ev(M.wit).as_long()
     if what == "crash":
